@@ -3591,6 +3591,14 @@ impl KotoVm {
         let representation = format_options.and_then(|options| options.representation);
         let rendered = match value {
             KValue::Number(n) => match (precision, representation) {
+                // Floats keep their value with the representations that are defined for all numbers
+                (_, Some(StringFormatRepresentation::Debug)) if n.is_f64() => n.to_string(),
+                (_, Some(StringFormatRepresentation::ExpLower)) if n.is_f64() => {
+                    format!("{:e}", f64::from(n))
+                }
+                (_, Some(StringFormatRepresentation::ExpUpper)) if n.is_f64() => {
+                    format!("{:E}", f64::from(n))
+                }
                 (_, Some(representation)) => {
                     let n = i64::from(n);
                     match representation {
